@@ -228,6 +228,9 @@ class CoercerMethod(DeserializationMethod):
     method: DeserializationMethod
 
     def deserialize(self, data: Any) -> Any:
+        if isinstance(data, Discriminated):
+            # data (already checked to be a dict) is wrapped by DiscriminatorMethod
+            return self.method.deserialize(data)
         return self.method.deserialize(self.coercer(self.cls, data))
 
 
